@@ -8,8 +8,12 @@ Definition vinv (m : mem) : Prop := fresh_ok m /\ 5 < m_next m.
 (* names of type objects are kept, the allocation pointer only grows *)
 Definition tyi (m : mem) (o : oid) : option (str * kind) :=
   match mget m o with Some (OType n k _ _ _ _ _) => Some (n, k) | _ => None end.
+(* ... and objects that are not type objects (fields, arguments, input fields,
+   enum values, directives) are not written at all *)
 Definition tnr (m m' : mem) : Prop :=
-  m_next m <= m_next m' /\ forall o i, tyi m o = Some i -> tyi m' o = Some i.
+  m_next m <= m_next m' /\
+  ((forall o i, tyi m o = Some i -> tyi m' o = Some i) /\
+   (forall o v, mget m o = Some v -> tyi m o = None -> mget m' o = Some v)).
 Lemma tyi_tname m o n k : tyi m o = Some (n, k) -> tname m o = Some n /\ tkind m o = Some k.
 Proof. unfold tyi, tname, tkind. destruct (mget m o) as [[| | | |]|]; try discriminate. intros H; inversion H; auto. Qed.
 Lemma tname_tyi m o n : tname m o = Some n -> exists k, tyi m o = Some (n, k).
@@ -18,16 +22,23 @@ Definition hook_tn (h : hook) : Prop :=
   forall m x m' r, vinv m -> h m x = Some (m', r) -> vinv m' /\ tnr m m'.
 
 Lemma tnr_refl m : tnr m m.
-Proof. split; [lia|auto]. Qed.
+Proof. split; [lia|split; auto]. Qed.
 Lemma tnr_trans m m' m'' : tnr m m' -> tnr m' m'' -> tnr m m''.
-Proof. intros [N1 T1] [N2 T2]. split; [lia|auto]. Qed.
+Proof.
+  intros (N1 & T1 & P1) (N2 & T2 & P2). split; [lia|]. split; [auto|].
+  intros o v Hg Ht. pose proof (P1 o v Hg Ht) as Hg'. apply P2; [assumption|].
+  unfold tyi in *. rewrite Hg'. rewrite Hg in Ht. exact Ht.
+Qed.
 
 Lemma tnr_alloc m v : vinv m -> vinv (fst (alloc m v)) /\ tnr m (fst (alloc m v)).
 Proof.
   intros [Hf Hn]. split; [split; [apply fresh_alloc; assumption|simpl; lia]|].
-  split; [simpl; lia|]. intros o n Ht. unfold tyi in *. rewrite mget_alloc.
-  destruct (N.eqb_spec o (m_next m)) as [->|]; [|assumption].
-  rewrite (Hf (m_next m)) in Ht; [discriminate|lia].
+  split; [simpl; lia|]. split.
+  - intros o n Ht. unfold tyi in *. rewrite mget_alloc.
+    destruct (N.eqb_spec o (m_next m)) as [->|]; [|assumption].
+    rewrite (Hf (m_next m)) in Ht; [discriminate|lia].
+  - intros o w Hg _. rewrite mget_alloc. destruct (N.eqb_spec o (m_next m)) as [->|]; [|assumption].
+    rewrite (Hf (m_next m)) in Hg; [discriminate|lia].
 Qed.
 
 Lemma hook_tn_hid : hook_tn hid.
@@ -105,7 +116,7 @@ Proof.
     vinv m' /\ tnr m m' /\ exists y, r = Some y /\ tyi m' y = Some (n, k) /\ (y = t \/ m_next m <= y)).
   { intros h Hh H0. destruct (map_filter h m ms) as [[m1 ms']|] eqn:Hmf; [|discriminate].
     destruct (map_filter_tn _ Hh _ _ _ _ Hi Hmf) as (I1 & R1).
-    assert (Ht1 : tyi m1 t = Some (n, k)) by (apply (proj2 R1); unfold tyi; rewrite Hg; reflexivity).
+    assert (Ht1 : tyi m1 t = Some (n, k)) by (apply (proj1 (proj2 R1)); unfold tyi; rewrite Hg; reflexivity).
     destruct (oids_eqb ms' ms).
     - inversion H0; subst. split; [assumption|]. split; [assumption|]. exists t. auto.
     - unfold tyi in Ht1. destruct (mget m1 t) as [[n1 k1 d1 ms1 ifs1 rs1 ds1| | | |]|]; try discriminate.
@@ -161,8 +172,11 @@ Proof.
                           tnr m (if oids_eqb ms' ms then m else write m o (OType n k d ms' ifs rs ds))).
   { intros ms'. destruct (oids_eqb ms' ms); [split; [assumption|apply tnr_refl]|].
     split; [split; [eapply fresh_write; [exact (proj1 Hi)|exact Hg]|exact (proj2 Hi)]|].
-    split; [simpl; lia|]. intros x i Hx. unfold tyi in *. rewrite mget_write.
-    destruct (N.eqb_spec x o) as [->|]; [|assumption]. rewrite Hg in Hx. exact Hx. }
+    split; [simpl; lia|]. split.
+    - intros x i Hx. unfold tyi in *. rewrite mget_write.
+      destruct (N.eqb_spec x o) as [->|]; [|assumption]. rewrite Hg in Hx. exact Hx.
+    - intros x w Hx Hty. rewrite mget_write. destruct (N.eqb_spec x o) as [->|]; [|assumption].
+      unfold tyi in Hty. rewrite Hg in Hty. discriminate. }
   destruct k; try (inversion Hp; subst; split; [assumption|split; [apply tnr_refl|reflexivity]]).
   - rewrite Hvis in Hp. destruct (vp_type p n); inversion Hp; subst.
     + destruct (Hw (filter_by_name m (vp_field p n) ms)). split; [assumption|split; [assumption|reflexivity]].
@@ -190,7 +204,7 @@ Proof.
     { destruct k; try (inversion Hr1; subst; split; [reflexivity|intros [Hc|Hc]; discriminate]);
         (destruct (vp_type p n); [inversion Hr1; auto|discriminate]). }
     destruct H0 as (-> & Hoi).
-    pose proof (proj2 R1 _ _ Hty) as Hty1.
+    pose proof (proj1 (proj2 R1) _ _ Hty) as Hty1.
     destruct (base_type (vis_visitor p) m1 o) as [[m2 r2]|] eqn:Eb; [|discriminate].
     destruct (base_type_tn _ Hfd Hin Hen _ _ _ _ _ I1 Hty1 Eb) as (I2 & R2 & y & -> & Hty2 & Hy).
     unfold vis_type_post in H. destruct (tyi_tname _ _ _ _ Hty2) as (Hn2 & Hk2). rewrite Hk2 in H.
@@ -210,7 +224,7 @@ End Vis.
 
 Lemma tnr_tname m m' o n : tnr m m' -> tname m o = Some n -> tname m' o = Some n.
 Proof.
-  intros [_ R] Ht. destruct (tname_tyi _ _ _ Ht) as (k & Hty). exact (proj1 (tyi_tname _ _ _ _ (R _ _ Hty))).
+  intros (_ & R & _) Ht. destruct (tname_tyi _ _ _ Ht) as (k & Hty). exact (proj1 (tyi_tname _ _ _ _ (R _ _ Hty))).
 Qed.
 
 Lemma vis_traverse_removed p : forall l m m' ups,
